@@ -294,7 +294,11 @@ def ann(tx, env, spelling="typing"):
     if h == "L":
         return typing.Literal[tuple(a)]
     if h == "D":
-        return Dependent[ann(a[0], env), env.value_pred(a[1], a[0])]
+        # one object per (bound, predicate), the way a user names a dependent type once and reuses it
+        key = ("D", tname(tx))
+        if key not in env._dep_cache:
+            env._dep_cache[key] = Dependent[ann(a[0], env), env.value_pred(a[1], a[0])]
+        return env._dep_cache[key]
     if h == "T":
         return tuple[tuple(ann(x, env) for x in a)] if a else tuple[()]
     if h == "Ls":
